@@ -619,3 +619,14 @@ Proof.
   - field.
   - match goal with |- Rabs ?z < _ => replace z with (1 / 40000000000) by field end. solve_abs.
 Qed.
+
+(* (c) floating point: on a line ~4e8 units from the origin, the point at t = 1e-12 rounds to one ulp (6e-8) BEFORE the
+   start point, and the lookup (a correctly rounded affine inverse) returns -1.1e-10, a parameter outside [0,1].  Over R
+   the lookup returns t itself (line_tOfPoint_inverse); this is the binary64 instance of the same regenerated text,
+   bit-identical to CPython (recorded as known finding C15-line-end-rounding) *)
+Definition line_end_rounding_witness : seg2 float :=
+  L2 (P 0x1.72ef14beb63fap+28%float (-0x1.f9d2cc8fd4537p+27)%float) (P 0x1.72eef2f4fba79p+28%float (-0x1.f9d2c4518effep+27)%float).
+Example line_end_rounding_float_refuted :
+  let l := line_end_rounding_witness in
+  PrimFloat.ltb (Line_tOfPoint FOps l (Line_pointAtTime FOps l 0x1.19799812dea11p-40%float) false) 0%float = true.
+Proof. vm_compute. reflexivity. Qed.
